@@ -505,7 +505,7 @@ func execMp(w *gwWorld, s gwStep) (map[string]any, bool) {
 			pm, _ := x.(map[string]any)
 			parts = append(parts, CPart{N: mpNum(pm, "n"), ETag: t.etagToSend(str(pm, "e"))})
 		}
-		if t.mut == "complete-right-list" && !t.mutDone && str(s.R, "status") != "ok" && str(s.R, "status") != "NoSuchUpload" {
+		if st := str(s.R, "status"); t.mut == "complete-right-list" && !t.mutDone && (st == "InvalidPartOrder" || st == "InvalidPart:etag") {
 			// self-test: behave like a gateway that accepts a list it must refuse
 			if good := mpGoodList(t, w, str(a, "u")); len(good) > 0 {
 				parts = good
@@ -1653,6 +1653,7 @@ func mpSelfTest(c *core.Ctx, w *gwWorld, t *mpTab, behs []mpBehaviour) {
 	results := map[string]string{}
 	for _, m := range muts {
 		results[m.name] = "no suitable behaviour"
+		tries := 0
 		for i, b := range behs {
 			if !has(b, m.want) {
 				continue
@@ -1682,10 +1683,15 @@ func mpSelfTest(c *core.Ctx, w *gwWorld, t *mpTab, behs []mpBehaviour) {
 			}
 			if ok {
 				results[m.name] = "detected"
-			} else {
-				results[m.name] = "MISSED"
-				c.Inconclusive("binding self-test: corruption %q was not noticed (diffs: %v)", m.name, got)
+				break
 			}
+			// (the corrupted step may be one where the corruption changes nothing - e.g. the
+			// natural list is refused as well: try the next suitable behaviour)
+			if tries++; tries < 6 {
+				continue
+			}
+			results[m.name] = "MISSED"
+			c.Inconclusive("binding self-test: corruption %q was not noticed in %d behaviours (diffs of the last: %v)", m.name, tries, got)
 			break
 		}
 	}
